@@ -3,6 +3,7 @@ pub mod gen;
 pub mod idl;
 pub mod interp;
 pub mod protos;
+pub mod traced;
 pub mod tree;
 
 /// Silence the default panic printer: panics of the code under test are data.
